@@ -3,7 +3,8 @@
    (via C01's invariant and C02's frame), `replay_needs_no_chunk` and the convergence of a reset()
    loop (`reset_loop_converges`, `loop_quiet_forever`) are proved over the model. *)
 From Coq Require Import ZArith List.
-From BS Require Import Word BumpSpec ChunkSpec Arena ArenaInv ArenaStats ArenaMisc ArenaExt ArenaInv2 ArenaReplay ArenaSizes ArenaLoop.
+From Coq Require Import Permutation List.
+From BS Require Import Word BumpSpec ChunkSpec Arena ArenaInv ArenaStats ArenaMisc ArenaExt ArenaInv2 ArenaReplay ArenaSizes ArenaLoop ArenaLinks.
 Import ListNotations.
 Open Scope Z_scope.
 
@@ -113,6 +114,16 @@ Theorem C03_first_round_reaches_loop_state :
   exists ch, loop_state c (fst (step c (fst (allocs c s w rs)) OReset r)) ch.
 Proof. exact first_round_reaches_loop_state. Qed.
 
+(* reset_to_start walks back to the first chunk (ArenaLinks.v; `while let Some(prev) = chunk.prev()`, shape checked against
+   the source); stepping back once instead ends at the wrong chunk whenever the current chunk is the third or later *)
+Theorem C03_reset_to_start_reaches_the_first_chunk :
+  forall n i, (i < n)%nat -> run_reset_to_start true (ArenaLinks.fresh n) i = WOk 0%nat.
+Proof. exact reset_to_start_reaches_the_first_chunk. Qed.
+
+Theorem C03_one_step_back_is_not_the_start :
+  forall n i, (2 <= i)%nat -> run_reset_to_start false (ArenaLinks.fresh n) i = WOk (i - 1)%nat /\ (i - 1 <> 0)%nat.
+Proof. exact one_step_back_is_not_the_start. Qed.
+
 Print Assumptions C03_checkpoint_records_position.
 Print Assumptions C03_reset_loop_converges.
 Print Assumptions C03_loop_quiet_forever.
@@ -125,3 +136,5 @@ Print Assumptions C03_reset_to_restores.
 Print Assumptions C03_allocated_restored.
 Print Assumptions C03_reset_to_keeps_invariant.
 Print Assumptions C03_reset_to_start_releases_none.
+Print Assumptions C03_reset_to_start_reaches_the_first_chunk.
+Print Assumptions C03_one_step_back_is_not_the_start.
